@@ -74,3 +74,74 @@ META["C07"] = {
     "note": "Trusts the survivor scan (runs over [0-9A-Fa-f:.] with a hex digit and a separator) and the filler alphabet that makes it exact.",
     "technique": "property-based testing (rapid): structured address/line generator, survivor-scan oracle, metamorphic split invariance",
 }
+
+PROPS["C08"] = {
+    "rule": ("c08_strip: SDP descriptions with 1-3 media sections and 0-12 candidate attributes each (host/srflx/prflx/relay, "
+             "udp/tcp, addresses on and around every range boundary of the statement, IPv4-mapped forms, mDNS names, "
+             "malformed lines) or arbitrary text; oracle = line diff against an independent classifier (netip prefixes): "
+             "every well-formed local host candidate gone, every other line present byte-identical and in order, "
+             "idempotence. Non-trivial = at least one boundary address, one candidate that must be removed and one that "
+             "must be kept. c08_islocal: exhaustive over the first two IPv4 octets (also IPv4-mapped) and the first IPv6 "
+             "group, plus generated addresses."),
+    "assumptions": ["for malformed candidate lines (bad port/priority/component, unknown transport or type, zone, truncated) either outcome is accepted",
+                    "comparison is made on pion's canonical re-marshalling of the input, which is what the stripping step emits"],
+    "units": [
+        U("c08_strip", "ext", "c08", "^TestVerifC08Strip$", (2500, 40000)),
+        U("c08_islocal", "ext", "c08", "^TestVerifC08IsLocal$", (2000, 20000), shards=(2, 4)),
+    ],
+}
+META["C08"] = {
+    "level": ("Sampled exploration with a boundary-aware generator and an independent address classifier as reference "
+              "model; the address classification itself is enumerated exhaustively over the octets/groups that decide it."),
+    "note": "Trusts the harness' candidate-line classifier and pion's SDP parser for canonicalising the generated text.",
+    "technique": "property-based testing (rapid): reference-model oracle (line diff + independent classifier), idempotence, exhaustive address-prefix enumeration",
+}
+
+PROPS["C12"] = {
+    "rule": ("c12_messages: for each of the six messages either (roundtrip) generated field values - valid UTF-8 strings of "
+             "any content incl. quotes/control characters/64 KB, all ints, NAT names and non-names, proxy types, fingerprints "
+             "of right and wrong length/alphabet, pattern present/absent - encoded then decoded and compared with the "
+             "documented defaults; or (doc) a hand-built JSON document with members absent / of another JSON type / with "
+             "generated version strings, which must be rejected when the protocol forbids it; or (raw) arbitrary bytes, "
+             "wrong-shape JSON or a valid encoding with one mutation, on which a successful decode must satisfy the "
+             "validity predicate. Non-trivial = a string needing JSON escaping, an optional field absent, a doc or raw case."),
+    "assumptions": ["versions '1', '1.', '1.x.y' may be accepted or rejected; only a major version other than 1 must be rejected"],
+    "units": [U("c12_messages", "ext", "c12", "^TestVerifC12Messages$", (8000, 100000))],
+}
+META["C12"] = {
+    "level": "Sampled exploration of the field space and of hostile byte strings for all six codecs, with a written-down protocol model (defaults + validity predicate) as oracle; native fuzzing per decoder in the thorough tier.",
+    "note": "Trusts the harness' statement of the protocol defaults and validity rules, taken from the message documentation in common/messages.",
+    "technique": "property-based testing (rapid): round-trip + validity-predicate oracle over generated fields, hand-built documents and mutated encodings",
+}
+
+PROPS["C13"] = {
+    "rule": ("c13_sessdesc: (roundtrip) four SDP types x arbitrary valid-UTF-8 SDP text; (json) objects whose members "
+             "type/sdp/Type/SDP/x are generated in any order, duplicated, missing, and of every JSON type; (text) arbitrary "
+             "strings and non-object JSON. Oracle: round trip equality; otherwise a value of one of the four types that "
+             "echoes the message's members, or an error; a panic is a violation. Non-trivial = json case carrying both "
+             "members, or a round trip whose SDP needs JSON escaping."),
+    "assumptions": [],
+    "units": [U("c13_sessdesc", "ext", "c13", "^TestVerifC13SessDesc$", (8000, 100000))],
+}
+META["C13"] = {
+    "level": "Sampled exploration over a JSON grammar with deliberate type confusion plus arbitrary strings; oracle = round trip and 'value or error, never panic'; the in-package part covers the proxy's address extraction from SDP text.",
+    "note": "A panic in the calling goroutine is observed with recover; the functions under test start no goroutines.",
+    "technique": "property-based testing (rapid): grammar-based JSON generator with type confusion, round-trip and no-panic oracle; native fuzzing in the thorough tier",
+}
+PROPS["C06"] = {
+    "rule": ("c06_superset: generated pattern pairs over {a,b,.,-,^,$} and realistic names, hostnames CONSTRUCTED as members "
+             "of the second pattern (exact / with prefix) or arbitrary; oracle: IsSupersetOf(p,q) and IsMember(q,h) imply "
+             "IsMember(p,h), and IsMember agrees with the documented suffix/exact semantics. c06_superset_exh: every pair "
+             "of patterns of length <= 4 over {a,.,^,$} against every hostname of length <= 4 (quick) / 5 (thorough). "
+             "Non-trivial = different patterns with overlapping non-empty suffixes."),
+    "assumptions": [],
+    "units": [
+        U("c06_superset", "ext", "c06", "^TestVerifC06Superset$", (5000, 50000), shards=(4, 8)),
+        U("c06_superset_exh", "ext", "c06", "^TestVerifC06SupersetExhaustive$", (1, 1), shards=(8, 16)),
+    ],
+}
+META["C06"] = {
+    "level": "Sampled exploration plus exhaustive enumeration of a small pattern space for the superset law; generated broker configurations and poll histories for the rejection rule; generated relay URLs against the proxy's own check.",
+    "note": "Trusts the semantic reading of a pattern (optional ^ = exact, optional trailing $, otherwise suffix).",
+    "technique": "property-based testing (rapid) with implication oracle + exhaustive small-alphabet enumeration; state-machine histories for broker/proxy parts",
+}
